@@ -151,6 +151,9 @@ func c03Facts(fs *Facts, s *c02Src) {
 	l, i, w := c03Triggers(s)
 	fs.Tri("triggersUseLocked", l, w)
 	fs.Tri("loadUsesFromIndex", i, w)
+	sh, td, w := c02ReaderFacts(s)
+	fs.Tri("shortHeaderIsEOF", sh, w)
+	fs.Tri("tornDataIsEOF", td, w)
 }
 
 func init() {
